@@ -266,9 +266,11 @@ func (msc *MinerSmartContract) setPhaseNode(balances cstate.StateContextI,
 			var err error
 			if phaseFunc, ok := phaseFuncs[pn.Phase]; ok {
 				if lock, found := lockPhaseFunctions[pn.Phase]; found {
-					lock.Lock()
-					err = phaseFunc(balances, gn)
-					lock.Unlock()
+					err = func() error {
+						lock.Lock()
+						defer lock.Unlock()
+						return phaseFunc(balances, gn)
+					}()
 				} else {
 					err = phaseFunc(balances, gn)
 				}
@@ -451,7 +453,7 @@ func (msc *MinerSmartContract) reduceShardersList(
 	}
 
 	if !hasPrevSharderInList(pmb.MagicBlock, nodes) {
-		var prev = rankedPrevSharders(pmb.MagicBlock, nodes)
+		var prev = rankedPrevSharders(pmb.MagicBlock, tmpMinerNodes)
 		if len(prev) == 0 {
 			panic("must not happen")
 		}
@@ -618,6 +620,8 @@ func (msc *MinerSmartContract) contributeMpk(t *transaction.Transaction,
 			"decoding request: %v", err)
 	}
 
+	mpk.ID = t.ClientID // the input must not choose the id the key is recorded under
+
 	if len(mpk.Mpk) != dmn.T {
 		return "", common.NewErrorf("contribute_mpk_failed",
 			"mpk sent (size: %v) is not correct size: %v", len(mpk.Mpk), dmn.T)
@@ -691,11 +695,16 @@ func (msc *MinerSmartContract) shareSignsOrShares(t *transaction.Transaction,
 			"getting miners DKG list %v", err)
 	}
 
+	if _, ok = dmn.SimpleNodes[t.ClientID]; !ok {
+		return "", common.NewError("share_signs_or_shares", "miner not part of dkg set")
+	}
+
 	var sos = block.NewShareOrSigns()
 	if err = sos.Decode(inputData); err != nil {
 		return "", common.NewErrorf("share_signs_or_shares",
 			"decoding input %v", err)
 	}
+	sos.ID = t.ClientID
 
 	if len(sos.ShareOrSigns) < dmn.K-1 {
 		return "", common.NewErrorf("share_signs_or_shares",
